@@ -26,7 +26,8 @@ MONITORS = ["serialize_loaded", "reload_equal", "second_save_identical"]
 REQUIRED = ["key_only_loaded", "lower_case_key", "duplicate_key", "param_after_notes", "lenient_with_stray",
             "chart_both_notes_and_notes2", "corpus_mutation", "sm_chart_loaded", "ssc_chart_loaded", "sm_backslash_without_other_meta",
             "ssc_version_not_first", "key_only_multi_value_in_chart", "sm_twin_charts_differing_in_extradata",
-            "double_slash_across_a_4096_block_boundary_of_a_chart_value", "lone_surrogate_in_a_value"]
+            "double_slash_across_a_4096_block_boundary_of_a_chart_value", "lone_surrogate_in_a_value",
+            "more_than_256_charts", "charts_but_no_header_property"]
 
 
 def anchors():
@@ -220,6 +221,10 @@ def observe(ctx, a, text, strict, case):
         ctx.feat("key_only_multi_value_in_chart")
     if a.charts:
         ctx.feat("sm_chart_loaded" if type(a) is SMSimfile else "ssc_chart_loaded")
+    if len(a.charts) > 256:
+        ctx.feat("more_than_256_charts")
+    if a.charts and not len(a):
+        ctx.feat("charts_but_no_header_property")
     if type(a) is SMSimfile:
         for i, c in enumerate(a.charts):
             for d in a.charts[:i]:
